@@ -114,25 +114,34 @@ structure BCtx where
   opts : Options
   /-- `fset.Position(methodPos)` -/
   methodPos : String
+  /-- the generated function has an error result (`MethodEntry.RetError()`) -/
+  retError : Bool := true
 
 namespace BCtx
 variable (ctx : BCtx)
 
-/-- `NewTypecast`: `.ok none` = not implemented, `.panic` = nil package of a universe named type -/
+/-- the conversion operator text for a target type: a pointer type needs parentheses, `(*T)(x)` -/
+def castOperator (isPtr : Bool) (baseExpr : String) : String :=
+  if isPtr then
+    "(*" ++ String.ofList (match baseExpr.toList with | '*' :: r => r | cs => cs) ++ ")"   -- `TrimPrefix(expr, "*")`
+  else baseExpr
+
+/-- `NewTypecast`: `.ok none` = not implemented -/
 def newTypecast (t : TyId) (inner : Node) : Outcome (Option Node) :=
   let env := ctx.env
   let d := env.derefPtr t
+  let op := castOperator (env.isPtr t)
   match env.kind d with
   | .named =>
     let ti := env.ty d
-    if ti.pkgPath.isNone || env.scopeHas ti.name then .ok (some (.cast inner t ti.name)) else
+    if ti.pkgPath.isNone || env.scopeHas ti.name then .ok (some (.cast inner t (op ti.name))) else
     match ti.pkgPath with
-    | none => .ok (some (.cast inner t ti.name))
+    | none => .ok (some (.cast inner t (op ti.name)))
     | some p =>
       match env.importName p with
-      | some n => .ok (some (.cast inner t (n ++ "." ++ ti.name)))
-      | none => .ok (some (.cast inner t (ti.pkgName ++ "." ++ ti.name)))
-  | .basic => .ok (some (.cast inner t (env.ty t).str))
+      | some n => .ok (some (.cast inner t (op (n ++ "." ++ ti.name))))
+      | none => .ok (some (.cast inner t (op (ti.pkgName ++ "." ++ ti.name))))
+  | .basic => .ok (some (.cast inner t (op (env.ty t).str)))
   | _ => .ok none
 
 /-- `castNode`: the node (if any) and the warnings printed -/
@@ -217,25 +226,43 @@ def noAssignmentWarn (pos : String) (lhs : Node) : String :=
 def noMatchAt (pos : String) (lhs : Node) (pre : List String) : Outcome Stmt :=
   .ok (.noMatch lhs (pre ++ [ctx.noAssignmentWarn pos lhs]))
 
+/-- the argument handed to a converter: the resolved source cast to the parameter type, or — for a
+pointer parameter — to its element type (the call then takes the address) -/
+def convArg (c : FieldConverter) (rhsNode : Node) : Outcome (Option Node × List String) :=
+  match ctx.castNode c.argTy rhsNode with
+  | .ok (some a, w1) => .ok (some a, w1)
+  | .ok (none, w1) =>
+    if !ctx.env.isPtr c.argTy then .ok (none, w1) else
+    match ctx.castNode (ctx.env.derefPtr c.argTy) rhsNode with
+    | .ok (a2, w2) => .ok (a2, w1 ++ w2)
+    | .error e => .error e
+    | .panic p => .panic p
+  | .error e => .error e
+  | .panic p => .panic p
+
+/-- the assignment from a converter call: a converter that can fail needs an error result to carry
+the error, otherwise the field is reported `no match` -/
+def convAssign (lhs : Node) (c : FieldConverter) (casted? : Option Node) (warns : List String) : Outcome Stmt :=
+  match casted? with
+  | some n =>
+    if c.retError && !ctx.retError then ctx.noMatchAt c.pos lhs warns
+    else .ok (.simple lhs (.node n) c.retError warns)
+  | none => ctx.noMatchAt c.pos lhs warns
+
 /-- `createWithConverter` -/
-def createWithConverter (lhs rhs : Node) (c : FieldConverter) : Outcome Stmt := do
-  let env := ctx.env
+def createWithConverter (lhs rhs : Node) (c : FieldConverter) : Outcome Stmt :=
   match ctx.resolveExpr c.src rhs.rootOf with
   | none => ctx.noMatchAt c.pos lhs []
   | some rhsNode =>
-    let (arg?, w1) ← ctx.castNode c.argTy rhsNode
-    let (arg?, w2) ← match arg? with
-      | some a => pure (some a, ([] : List String))
-      | none =>
-        if !env.isPtr c.argTy then pure (none, [])
-        else ctx.castNode (env.derefPtr c.argTy) rhsNode
-    match arg? with
-    | none => ctx.noMatchAt c.pos lhs (w1 ++ w2)
-    | some argNode =>
-      let (casted?, w3) ← ctx.castNode (lhs.exprType env) (.conv argNode c)
-      match casted? with
-      | some n => pure (.simple lhs (.node n) c.retError (w1 ++ w2 ++ w3))
-      | none => ctx.noMatchAt c.pos lhs (w1 ++ w2 ++ w3)
+    match ctx.convArg c rhsNode with
+    | .ok (none, w) => ctx.noMatchAt c.pos lhs w
+    | .ok (some argNode, w) =>
+      match ctx.castNode (lhs.exprType ctx.env) (.conv argNode c) with
+      | .ok (casted?, w3) => ctx.convAssign lhs c casted? (w ++ w3)
+      | .error e => .error e
+      | .panic p => .panic p
+    | .error e => .error e
+    | .panic p => .panic p
 
 /-- the common tail of `createWithMapper`/`createWithTemplatedMapper` -/
 def createMapped (lhs : Node) (pos : String) (rhsNode? : Option Node) : Outcome Stmt := do
@@ -244,7 +271,9 @@ def createMapped (lhs : Node) (pos : String) (rhsNode? : Option Node) : Outcome 
   | some rhsNode =>
     let (casted?, w) ← ctx.castNode (lhs.exprType ctx.env) rhsNode
     match casted? with
-    | some n => pure (.simple lhs (.node n) n.returnsError w)
+    | some n =>
+      if n.returnsError && !ctx.retError then ctx.noMatchAt pos lhs w
+      else pure (.simple lhs (.node n) n.returnsError w)
     | none => ctx.noMatchAt pos lhs w
 
 /-- `sliceToSlice` -/
@@ -253,7 +282,7 @@ def sliceToSlice (lhs rhs : Node) : Outcome (Option Stmt) :=
   let le := env.sliceElem (lhs.exprType env)
   let re := env.sliceElem (rhs.exprType env)
   if env.assignable re le then
-    if env.isBasicType re then .ok (some (.sliceCopy lhs rhs ("[]" ++ (env.ty le).str)))
+    if env.isBasicType re && env.identical re le then .ok (some (.sliceCopy lhs rhs ("[]" ++ (env.ty le).str)))
     else .ok (some (.sliceLoop lhs rhs ("[]" ++ env.typeNameF le)))
   else if ctx.opts.typecast && env.convertible re le then
     .ok (some (.sliceCast lhs rhs ("[]" ++ env.typeNameF le) (env.typeNameF le)))
